@@ -123,11 +123,11 @@ func genAndRun(c *hx.Ctx, w *world, i int) {
 		n = 7
 	}
 	p := roles(perm(c, n))
-	modes := []string{"clean", "async", "partition", "byz", "byz", "forge", "verified", "no-equivocation", "no-empty", "byz-async", "partition", "async", "crossover", "crossover"}
+	modes := []string{"clean", "async", "partition", "byz", "byz", "forge", "verified", "no-equivocation", "no-empty", "byz-async", "partition", "async", "crossover", "crossover", "race", "race"}
 	mode := modes[i%len(modes)]
 	nbyz := 0
 	switch mode {
-	case "clean", "async", "partition", "crossover":
+	case "clean", "async", "partition", "crossover", "race":
 	default:
 		nbyz = 1 + c.Intn(int(p.C))
 	}
@@ -158,7 +158,11 @@ func genAndRun(c *hx.Ctx, w *world, i int) {
 		genCrossover(c, r, honest, i)
 		return
 	}
-	timers := mode == "async" || mode == "byz-async" || mode == "byz" && c.Intn(2) == 0
+	if mode == "race" && n == 4 && i%2 == 0 {
+		genRaceStructured(c, r, i)
+		return
+	}
+	timers := mode == "race" || mode == "async" || mode == "byz-async" || mode == "byz" && c.Intn(2) == 0
 	steps := 50 + c.Intn(70)
 	if n == 7 {
 		steps = 90 + c.Intn(60)
@@ -169,6 +173,20 @@ func genAndRun(c *hx.Ctx, w *world, i int) {
 	}
 	for s := 0; s < steps; s++ {
 		node := honest[c.Intn(len(honest))]
+		if mode == "race" && c.Intn(100) < 25 {
+			// the timer loop decides to commit and passes commitBlock's pre-check now; the rest of its
+			// commitBlock runs later, after whatever the other loops do in between
+			if nw.intent[node] == nil || c.Intn(3) == 0 {
+				r.step(Event{Kind: "peek", Node: node, Timer: 1 + c.Intn(2)})
+			} else if c.Intn(3) > 0 {
+				// meanwhile the message loop goes on
+				r.step(Event{Kind: "proc", Node: node})
+			} else {
+				r.step(Event{Kind: "late", Node: node})
+				delete(nw.intent, node)
+			}
+			continue
+		}
 		switch x := c.Intn(100); {
 		case x < 34:
 			r.step(Event{Kind: "proc", Node: node})
@@ -177,6 +195,14 @@ func genAndRun(c *hx.Ctx, w *world, i int) {
 				k := c.Intn(len(nw.net))
 				if c.Intn(3) > 0 { // prefer recent packets
 					k = len(nw.net) - 1 - c.Intn(min(len(nw.net), 6))
+				}
+				if mode == "race" && nw.net[k].M.Kind == "proposal" && c.Intn(4) > 0 {
+					// proposals arrive late: endorsements and commitments first
+					for j := range nw.net {
+						if nw.net[j].M.Kind != "proposal" && c.Intn(2) == 0 {
+							k = j
+						}
+					}
 				}
 				r.step(Event{Kind: "net", Node: node, Pkt: k})
 			}
@@ -359,4 +385,93 @@ func genCrossover(c *hx.Ctx, r *runner, honest []uint32, i int) {
 		}
 	}
 	r.finish(c, fmt.Sprintf("crossover/%d", i), false)
+}
+
+// genRaceStructured: HONEST ONLY, N = 4 under a random peer order. Two helpers endorse the leader's
+// block and (their endorse timeout firing early) its empty block, then commit the block; the victim
+// receives the empty endorsements before the proposal, so that its (empty-)endorse timeout handler
+// decides for the empty block and passes commitBlock's pre-check; the message loop then sees the
+// block's commit quorum and commits the block; then the timer loop's commitBlock goes on. Noise
+// events are interleaved; which loop is first, and whether the late half runs at all, vary.
+func genRaceStructured(c *hx.Ctx, r *runner, i int) {
+	nw := r.nw
+	p := nw.p
+	leader := p.Proposers[0]
+	victim, h1, h2 := p.Endorsers[0], p.Endorsers[1], p.Endorsers[2]
+	if c.Intn(2) == 0 {
+		victim, h2 = h2, victim
+	}
+	b := &builder{nw: nw}
+	do := func(e Event) { r.step(e) }
+	noise := func() {
+		for c.Intn(3) == 0 {
+			n := p.Peers[c.Intn(4)]
+			switch c.Intn(3) {
+			case 0:
+				do(Event{Kind: "proc", Node: n})
+			case 1:
+				do(Event{Kind: "act", Node: n})
+			default:
+				do(Event{Kind: "timer", Node: n, Timer: 3})
+			}
+		}
+	}
+	find := func(from uint32, kind string, empty bool) int {
+		idx := -1
+		for k, pk := range b.nw.net {
+			if pk.From == from && pk.M.Kind == kind && pk.M.P == leader && (kind == "proposal" || pk.M.ForEmpty == empty) {
+				idx = k
+			}
+		}
+		return idx
+	}
+	do(Event{Kind: "propose", Node: leader})
+	do(Event{Kind: "proc", Node: leader})
+	for _, x := range []uint32{h1, h2} {
+		do(Event{Kind: "net", Node: x, Pkt: find(leader, "proposal", false)})
+		do(Event{Kind: "proc", Node: x})
+		do(Event{Kind: "timer", Node: x, Timer: 1})
+		for k := 0; k < 3; k++ {
+			do(Event{Kind: "proc", Node: x})
+		}
+		noise()
+	}
+	do(Event{Kind: "net", Node: victim, Pkt: find(h1, "endorse", true)})
+	do(Event{Kind: "net", Node: victim, Pkt: find(h2, "endorse", true)})
+	do(Event{Kind: "proc", Node: victim})
+	do(Event{Kind: "proc", Node: victim})
+	do(Event{Kind: "net", Node: victim, Pkt: find(leader, "proposal", false)})
+	noise()
+	timerFirst := c.Intn(4) == 0
+	if timerFirst { // the timer loop runs its whole commit first, the message loop afterwards
+		do(Event{Kind: "timer", Node: victim, Timer: 2})
+	} else {
+		do(Event{Kind: "peek", Node: victim, Timer: 1 + c.Intn(2)})
+	}
+	do(Event{Kind: "net", Node: victim, Pkt: find(h1, "commit", false)})
+	do(Event{Kind: "net", Node: victim, Pkt: find(h2, "commit", false)})
+	for k := 2 + c.Intn(4); k > 0; k-- {
+		do(Event{Kind: "proc", Node: victim})
+	}
+	if !timerFirst && c.Intn(5) > 0 {
+		do(Event{Kind: "late", Node: victim})
+	}
+	noise()
+	// everything the victim sent reaches the others in some order
+	for _, x := range []uint32{h1, h2, leader} {
+		for k, pk := range nw.net {
+			if pk.From == victim && c.Intn(4) > 0 {
+				do(Event{Kind: "net", Node: x, Pkt: k})
+			}
+		}
+	}
+	for round := 0; round < 3; round++ {
+		for _, node := range p.Peers {
+			for k := 0; k < 5; k++ {
+				do(Event{Kind: "proc", Node: node})
+			}
+			do(Event{Kind: "act", Node: node})
+		}
+	}
+	r.finish(c, fmt.Sprintf("race/%d", i), false)
 }
